@@ -1,5 +1,5 @@
 //@ property: C15
-//@ expect: reject E0277
+//@ expect: reject E0277|E0599
 #![allow(unused, dead_code)]
 use happylock::*;
 use happylock::collection::*;
